@@ -59,39 +59,36 @@ structure InvNum (s : State) : Prop extends WF s where
 
 def Block.ids (b : Block) : List Nat := b.conns.map (·.1)
 
-/-- connections a not-yet-started `_discard_conn` task of block `u` will close
-    (still in `conns`, neither idle nor lent) -/
-def limboOf (s : State) (u : Nat) : List Nat :=
+/-- `(block uid, connection)` of the `_discard_conn` tasks that have not started: the
+    connection is still in `conns`, neither idle nor lent -/
+def limbo (s : State) : List (Nat × Nat) :=
   s.tasks.filterMap fun p => match p.2 with
-    | .disc b c false _ => if b == u then some c else none
+    | .disc b c false _ => some (b, c)
     | _ => none
 
-/-- connections sitting in the local list of a suspended `prune_inactive_connections` -/
-def pruneLocalsOf (s : State) (u : Nat) : List Nat :=
-  (s.prunes.filter (·.block == u)).flatMap (·.locals)
-
-def heldOf (s : State) (name : Nat) : List Nat :=
-  (s.holders.filter (·.name == name)).map (·.conn)
-
-/-- C15, ownership part, per block: every connection of the block is in exactly
-    one of: the idle stack, lent to exactly one holder, waiting for its
-    scheduled discard, in a prune task's hands; lent ones are marked in use,
-    the others are not; counters agree. -/
-structure BlockOwn (s : State) (b : Block) : Prop where
-  part : (b.stack ++ heldOf s b.name ++ limboOf s b.uid ++ pruneLocalsOf s b.uid).Perm b.ids
-  inUse : ∀ c, (c, true) ∈ b.conns ↔ c ∈ heldOf s b.name
-  acquired : b.acquired = (heldOf s b.name).length
-  home : ∀ c ∈ b.ids, (c, b.name) ∈ s.home
-  live : ∀ c ∈ b.ids, c ∈ s.live
-
+/-- C15, ownership part.  Stated for histories without `prune_inactive_connections` /
+    `prune_all_connections` (their hand-held connections are not tracked here; the oracle of
+    the harness covers them). -/
 structure InvOwn (s : State) : Prop where
-  names : (s.blocks.map (·.name)).Nodup
-  blocks : ∀ b ∈ s.blocks, BlockOwn s b
-  /-- no holder without a block -/
-  holders : ∀ h ∈ s.holders, ∃ b ∈ s.blocks, b.name = h.name
-  /-- a connection is lent to at most one request -/
+  /-- one block per database -/
+  nameInj : ∀ b1 ∈ s.blocks, ∀ b2 ∈ s.blocks, b1.name = b2.name → b1.uid = b2.uid
+  /-- a connection belongs to one block -/
+  disj : ∀ b1 ∈ s.blocks, ∀ b2 ∈ s.blocks, ∀ c, c ∈ b1.ids → c ∈ b2.ids → b1.uid = b2.uid
+  /-- idle connections are connections of the block and are not marked in use -/
+  stackIdle : ∀ b ∈ s.blocks, ∀ c ∈ b.stack, (c, false) ∈ b.conns
+  stackNd : ∀ b ∈ s.blocks, b.stack.Nodup
+  /-- a lent connection is a connection of the block of the database it was requested for,
+      and is marked in use -/
+  held : ∀ h ∈ s.holders, ∃ b ∈ s.blocks, b.name = h.name ∧ (h.conn, true) ∈ b.conns
+  /-- a connection is lent to at most one request at a time -/
   single : (s.holders.map (·.conn)).Nodup
-  reqs : (s.holders.map (·.req)).Nodup
+  /-- `conn_acquired_num` is the number of connections lent from the block -/
+  acq : ∀ b ∈ s.blocks, b.acquired = ((s.holders.filter (·.name == b.name)).length : Int)
+  /-- a connection scheduled for discard is in its block, not in use, not idle -/
+  limboIdle : ∀ p ∈ limbo s, ∀ b ∈ s.blocks, b.uid = p.1 → (p.2, false) ∈ b.conns ∧ p.2 ∉ b.stack
+  limboNd : (limbo s).Nodup
+  /-- they name blocks that exist or existed (uids are never reused) -/
+  limboUid : ∀ p ∈ limbo s, p.1 < s.nextUid
 
 /-! ### C16 -/
 
